@@ -72,7 +72,11 @@ def run_method(repo: Repo, cls, name: str, self_obj: dict, args: list) -> Any:
             vals = [ev(e.left)] + [ev(c) for c in e.comparators]
             ok = True
             for a, op, b in zip(vals, e.ops, vals[1:]):
-                if isinstance(op, ast.Eq):
+                if isinstance(op, (ast.Is, ast.IsNot)) and (a is None or b is None):
+                    r = (a is b) == isinstance(op, ast.Is)
+                elif isinstance(op, ast.NotEq) and not isinstance(a, Pat):
+                    r = a != b
+                elif isinstance(op, ast.Eq):
                     r = (a.kind == "star") if isinstance(a, Pat) and b == "*" else (a == b)
                 elif isinstance(op, ast.In):
                     r = (b.kind == "range") if isinstance(b, Pat) and a == "-" else (a in b)
@@ -100,8 +104,28 @@ def run_method(repo: Repo, cls, name: str, self_obj: dict, args: list) -> Any:
         if isinstance(e, ast.UnaryOp) and isinstance(e.op, ast.Not):
             return not truth(ev(e.operand))
         if isinstance(e, ast.BoolOp):
-            vals = [truth(ev(v)) for v in e.values]
-            return all(vals) if isinstance(e.op, ast.And) else any(vals)
+            v = None
+            for sub in e.values:  # value semantics: `x or default` yields the operand, not a bool
+                v = ev(sub)
+                if truth(v) != isinstance(e.op, ast.And):
+                    return v
+            return v
+        if isinstance(e, (ast.GeneratorExp, ast.ListComp)) and len(e.generators) == 1 and isinstance(e.generators[0].target, ast.Name) and not e.generators[0].is_async:
+            g = e.generators[0]
+            items = ev(g.iter)
+            if not isinstance(items, (tuple, list)):
+                raise AnalysisError("C02 cell evaluation: comprehension over a non-sequence")
+            out = []
+            saved = env.get(g.target.id, NOFOLD)
+            for it in items:
+                env[g.target.id] = it
+                if all(truth(ev(c)) for c in g.ifs):
+                    out.append(ev(e.elt))
+            if saved is NOFOLD:
+                env.pop(g.target.id, None)
+            else:
+                env[g.target.id] = saved
+            return tuple(out)
         if isinstance(e, ast.Tuple):
             return tuple(ev(x) for x in e.elts)
         if isinstance(e, ast.Call):
@@ -121,6 +145,8 @@ def run_method(repo: Repo, cls, name: str, self_obj: dict, args: list) -> Any:
                 raise _Raise()
             if n == "bool" and len(e.args) == 1:
                 return truth(ev(e.args[0]))
+            if n in ("tuple", "list") and len(e.args) == 1:
+                return tuple(ev(e.args[0]))
             if n in ("min", "max") and e.args:
                 vs = [ev(a) for a in e.args]
                 if all(isinstance(v, int) for v in vs):
@@ -274,8 +300,43 @@ def purity(chk: Check, repo: Repo) -> None:
         chk.ob("matching-is-a-pure-function-of-pattern-address-notation", f.site(), ok, f"{f.qualname}: attribute writes {writes}, container mutations {mut}, other callees {foreign}; reads {reads}", key=f"pure|{f.qualname}")
 
 
+def callback_filtering(chk: Check, repo: Repo) -> None:
+    """TelegramQueue.Callback.is_within_filter hands the verdict of AddressFilter.match through unchanged: it stores
+    nothing (no memo that could outlive an edit of the filter list or a notation switch), reads only the callback's
+    configuration, and asks every filter of self.address_filters about the telegram's destination address."""
+    cb = repo.cls("xknx.core.telegram_queue", "TelegramQueue.Callback")
+    f = cb.methods["is_within_filter"]
+    chk.unit(f)
+    stores = [ast.unparse(n)[:70] for n in walk_local(f.node) if isinstance(n, (ast.Attribute, ast.Subscript)) and isinstance(n.ctx, (ast.Store, ast.Del))] + [ast.unparse(n) for n in walk_local(f.node) if isinstance(n, (ast.Global, ast.Nonlocal))]
+    mut = [call_name(c) for c in calls(f.node) if isinstance(c.func, ast.Attribute) and c.func.attr in ("append", "extend", "pop", "clear", "update", "remove", "insert", "setdefault", "add", "discard", "sort", "__setitem__", "popitem")]
+    reads = sorted({n.attr for n in walk_local(f.node) if isinstance(n, ast.Attribute) and isinstance(n.value, ast.Name) and n.value.id == "self"})
+    slots = repo.fold(next((st.value for st in cb.node.body if isinstance(st, ast.Assign) and ast.unparse(st.targets[0]) == "__slots__"), ast.Constant(None)), cb.module, cb)
+    config = {"_match_all", "_match_outgoing", "address_filters", "group_addresses"}
+    extra = sorted(set(reads) - config)
+    ok = not stores and not mut and not extra
+    chk.ob("matching-is-a-pure-function-of-pattern-address-notation", f.site(), ok, f"is_within_filter: stores {stores}, container mutations {mut}, reads of self beyond the configured filters {extra} (slots {slots})", key="pure|Callback.is_within_filter")
+    # the address verdict comes from filter.match(destination) for filter ranging over self.address_filters
+    aliases = {"telegram.destination_address"}
+    for n in walk_local(f.node):
+        if isinstance(n, ast.Assign) and len(n.targets) == 1 and isinstance(n.targets[0], ast.Name) and ast.unparse(n.value) in aliases:
+            if sum(1 for m in walk_local(f.node) if isinstance(m, ast.Name) and m.id == n.targets[0].id and isinstance(m.ctx, ast.Store)) == 1:
+                aliases.add(n.targets[0].id)
+    iter_vars: dict[str, str] = {}
+    for n in walk_local(f.node):
+        if isinstance(n, ast.For) and isinstance(n.target, ast.Name):
+            iter_vars[n.target.id] = ast.unparse(n.iter)
+        if isinstance(n, ast.comprehension) and isinstance(n.target, ast.Name):
+            iter_vars[n.target.id] = ast.unparse(n.iter)
+    sites = [c for c in calls(f.node) if isinstance(c.func, ast.Attribute) and c.func.attr == "match"]
+    good = [c for c in sites if isinstance(c.func.value, ast.Name) and iter_vars.get(c.func.value.id) == "self.address_filters" and len(c.args) == 1 and not c.keywords and ast.unparse(c.args[0]) in aliases]
+    chk.ob("callback-filter-asks-every-address-filter", f.site(), bool(sites) and len(good) == len(sites), f"is_within_filter: {len(good)} of {len(sites)} `.match` call(s) are `<filter of self.address_filters>.match(telegram.destination_address)`", key="cb|match-sites")
+    chk.count("callback filter match sites", len(sites))
+    chk.floor("callback filter match sites", len(sites), 1)
+
+
 def run(chk: Check, repo: Repo) -> None:
     purity(chk, repo)
+    callback_filtering(chk, repo)
     pairing(chk, repo)
     range_tables(chk, repo)
     chk.rule("E5 effect census over the matcher's call tree; structural pairing of level filters and address components; E7 cell evaluation of the range parser over abstract pattern forms and every ordering of bounds it can distinguish")
